@@ -8,7 +8,12 @@ VARIABLES l, viol, div
 tvars == <<l, viol, div>>
 Trace == ndJsonDeserialize(TraceFile)
 Ev == Trace[l]
-Step ==
+\* a request outside the statement (unknown subscriber / rating group), interleaved with the cases: the model's server is
+\* silent for it; an answer is noted as a divergence, never a verdict
+Noise == /\ Ev.action = "noise"
+         /\ viol' = viol
+         /\ div' = div \cup (IF Ev.got THEN {[trace |-> Ev.trace, step |-> Ev.seq, class |-> "unknown " \o Ev.unknown, sub |-> "answered"]} ELSE {})
+StepSur ==
   LET cs  == Ev.args.cost
       r   == [sub |-> Ev.args.sub, consumed |-> Ev.args.consumed, quota |-> Ev.args.quota]
       obs == [got |-> Ev.result.got, price |-> Ev.result.price, allowed |-> Ev.result.allowed]
@@ -26,10 +31,11 @@ Step ==
           \cup (IF conc \/ ClientCostIsStored(cs, cli) THEN {} ELSE {V("client_cost_is_stored")})
      /\ div' = div \cup (IF Class(cs) = "other" \/ (exp.got = obs.got /\ (exp.got => (exp.price = obs.price /\ exp.allowed = obs.allowed)))
                          THEN {} ELSE {[trace |-> Ev.trace, step |-> Ev.seq, class |-> Class(cs), sub |-> r.sub]})
+Step == Ev.action = "sur" /\ StepSur
 Finish == /\ l = Len(Trace) + 1
           /\ PrintT(<<"VF-RESULT", ToJson([consumed |-> l - 1, viol |-> viol, div |-> div])>>)
           /\ l' = l + 1 /\ UNCHANGED <<viol, div>>
 TInit == l = 1 /\ viol = {} /\ div = {}
-TNext == (l <= Len(Trace) /\ l' = l + 1 /\ Step) \/ Finish
+TNext == (l <= Len(Trace) /\ l' = l + 1 /\ (Step \/ Noise)) \/ Finish
 TSpec == TInit /\ [][TNext]_tvars
 =============================================================================
